@@ -44,7 +44,7 @@ type faultBucket struct {
 	// intercept (C33) may answer a read itself: "" = pass through, "failed" = transient error,
 	// "notfound" = the bucket's not-found error, "corrupt" / "badversion" = altered content (Get only)
 	intercept func(kind, name string) string
-	afterMut func(rec callRec)                     // called outside the lock
+	afterMut  func(rec callRec) // called outside the lock
 }
 
 type crashPanic struct{}
